@@ -232,10 +232,10 @@ def gen_workspace(rng, base):
                             "---@type string\nLG = 's'\nreturn {}\n")
     files["lib2/lb.lua"] = ("LibTab = LibTab or {}\nLibTab.two = 'x'\nfunction LibTab.m2() end\n---@class (partial) LibC\n---@field p2 string\n"
                             "---@type integer\nLG = 1\nlocal la = require('la')\nreturn { la }\n")
-    libs = ["../lib", "../lib1", "../lib2"]
+    libs = ["@BASE@/lib", "@BASE@/lib1", "@BASE@/lib2"]
     if rng.chance(1, 2):
         files["lib3/lc.lua"] = "LibTab = LibTab or {}\nLibTab.three = true\n---@type boolean\nLG = true\n"
-        libs.append("../lib3")
+        libs.append("@BASE@/lib3")
     user2 = rng.pick(names)
     prepend(user2, "---@type boolean\nlocal xlt = LibTab\nprint(xlt, LibTab.one, LibTab.two, LibTab.none_)\n"
                    "---@type boolean\nlocal xlg = LG\nprint(xlg)\n---@type LibC\nlocal lc\n---@type boolean\nlocal xp = lc.p1\nprint(xp, lc.p2, lc.p3)\n"
